@@ -491,7 +491,7 @@ func c07RandCase(r *core.RNG) c07Case {
 func (p *c07) nRand(ctx core.Ctx) int { return ctx.Pick(3000, 40000) }
 
 func (p *c07) Plan(ctx core.Ctx) int {
-	return len(c07GraphList()) + len(c07ChainSpecs(ctx)) + len(c07CycleSpecs()) + c07NKeys + c07NDataLayout + len(c07SameNameCases()) + p.nRand(ctx)
+	return len(c07GraphList()) + len(c07ChainSpecs(ctx)) + len(c07CycleSpecs()) + c07NKeys + c07NDataLayout + len(c07SameNameCases()) + c07NCfgLayout + p.nRand(ctx)
 }
 
 // datalayout part: the page's front-matter names no layout, layouts/base.vuego
@@ -535,6 +535,25 @@ func c07SameNameCases() []c07Case {
 			c07File{Path: "z/k.vuego", Layout: "b"},
 			c07File{Path: "z/b.vuego"}),
 	}
+}
+
+// cfglayout part: the site configuration (theme.yml) carries a layout key. A
+// page that names a layout itself gets exactly its own chain - a layout
+// continues the chain only through its own front-matter; a page that names none
+// gets the page alone or the chain the configuration names.
+const c07NCfgLayout = 2 * 3
+
+func c07CfgLayoutCase(i int) c07Case {
+	pageDir := []string{"", "sub/"}[i%2]
+	own := []string{"", "b", "a"}[(i/2)%3]
+	c := c07Case{Part: "cfglayout", Shape: fmt.Sprintf("page=%sp/own=%s/config=a", pageDir, own), Page: pageDir + "p.vuego", FillKind: "none",
+		Fill: map[string]string{"layout": "a"}}
+	c.Files = []c07File{
+		{Path: pageDir + "p.vuego", Layout: own, FM: map[string]string{"kp": "fm0:kp"}},
+		{Path: "layouts/a.vuego", Layout: "b"},
+		{Path: "layouts/b.vuego"},
+	}
+	return c
 }
 
 func c07DataLayoutCase(i int) c07Case {
@@ -588,6 +607,11 @@ func (p *c07) Gen(ctx core.Ctx, i int) any {
 	}
 	if sn := c07SameNameCases(); i < len(sn) {
 		return sn[i]
+	} else {
+		i -= len(sn)
+	}
+	if i < c07NCfgLayout {
+		return c07CfgLayoutCase(i)
 	}
 	return c07RandCase(r)
 }
@@ -932,6 +956,12 @@ func (p *c07) Exec(ctx core.Ctx, cc any) core.Obs {
 	if c.Part == "datalayout" {
 		return c07ExecDataLayout(c, fsys, files)
 	}
+	if c.Part == "cfglayout" {
+		files["theme.yml"] = "layout: " + c.Fill["layout"] + "\nsite: S\n"
+		cc := c
+		cc.Fill = nil
+		return c07ExecDataLayout(cc, memFS(files), files)
+	}
 	if exp.Outcome != "ok" || len(exp.Chain) > 1 {
 		o.NT(mustJSON(c))
 	}
@@ -991,27 +1021,32 @@ func (p *c07) Exec(ctx core.Ctx, cc any) core.Obs {
 func c07ExecDataLayout(c c07Case, fsys fs.FS, files map[string]string) core.Obs {
 	var o core.Obs
 	o.NT(mustJSON(c))
-	o.Cell("part/datalayout")
-	o.Cell("datalayout/" + c.Shape)
+	o.Cell("part/" + c.Part)
+	o.Cell(c.Part + "/" + c.Shape)
 	alone := c07Reference(c)
-	named := c
-	named.Files = append([]c07File(nil), c.Files...)
-	named.Files[c07Index(c)[c.Page]].Layout = c.Fill["layout"]
-	chain := c07Reference(named)
 	accept := []string{c07ExpTree(c, alone.Chain)}
-	if chain.Outcome == "ok" {
-		accept = append(accept, c07ExpTree(c, chain.Chain))
+	supplied := c.Fill["layout"]
+	if c.Part == "cfglayout" {
+		supplied = "a" // from theme.yml
+	}
+	if own := c.Files[c07Index(c)[c.Page]].Layout; own == "" {
+		named := c
+		named.Files = append([]c07File(nil), c.Files...)
+		named.Files[c07Index(c)[c.Page]].Layout = supplied
+		if chain := c07Reference(named); chain.Outcome == "ok" {
+			accept = append(accept, c07ExpTree(c, chain.Chain))
+		}
 	}
 	for _, entry := range []string{"render", "renderfile"} {
 		out, err, iters, _ := c07Run(c, fsys, entry)
 		o.Evals++
 		o.Count("layout_iter_events", int64(iters))
 		if err != nil {
-			sig := "datalayout/error"
+			sig := c.Part + "/error"
 			if strings.Contains(err.Error(), "layouts/base.vuego") {
-				sig = "datalayout/default-applied-although-file-missing"
+				sig = c.Part + "/default-applied-although-file-missing"
 			}
-			o.Fail(c, sig+"/"+entry, "page without a front-matter layout, no layouts/base.vuego, Fill data layout=%q: render failed with %v (files %v)", c.Fill["layout"], err, sortedKeys(files))
+			o.Fail(c, sig+"/"+entry, "no layouts/base.vuego, layout=%q supplied through Fill data / site configuration (%s): render failed with %v (files %v)", supplied, c.Shape, err, sortedKeys(files))
 			continue
 		}
 		got := c07TreeString(c07Forest(oracle.ParseAuto(out)))
@@ -1022,11 +1057,11 @@ func c07ExecDataLayout(c c07Case, fsys fs.FS, files map[string]string) core.Obs 
 			}
 		}
 		if !ok {
-			o.Fail(c, "datalayout/wrong-nest/"+entry, "got nest %s, accepted %v\noutput: %s", got, accept, clip(out, 600))
+			o.Fail(c, c.Part+"/wrong-nest/"+entry, "got nest %s, accepted %v\noutput: %s", got, accept, clip(out, 600))
 		} else if got == accept[0] {
-			o.Cell("datalayout/observed/page-alone")
+			o.Cell(c.Part + "/observed/own-chain-or-page-alone")
 		} else {
-			o.Cell("datalayout/observed/chain-named-by-data")
+			o.Cell(c.Part + "/observed/chain-named-by-data")
 		}
 	}
 	return o
